@@ -329,7 +329,9 @@ def c01(ctx):
 
 
 def c02(ctx):
-    return [Native("faults", "c02")]
+    return [Native("faults", "c02"),
+            Native("huge-boundary-shift", "c02", shards=3, quick_shards=3, args=["--part", "huge"], thorough_only=True, timeout=3600,
+                   note="one process per backend (v4, v2, v4-sodium): signature over P || 0^(2^31) (v4 also 2^32) offered with the zero bytes moved into the assertion / footer")]
 
 
 def c03(ctx):
